@@ -29,7 +29,8 @@ rundemo() { # $1 = tree; prints the demo's exit status (0 = behaves as the prope
   [ -f $sd/expected.txt ] && exp=$sd/expected.txt
   [ -z "$exp" ] && [ -f $sd/expected.out ] && exp=$sd/expected.out
   if [ -f $sd/demo.calc ] && [ -n "$exp" ]; then
-    (cd $1 && timeout 180 go run ./cmd/calc $sd/demo.calc 2>&1 | diff -q - $exp >/dev/null 2>&1); echo $?
+    inp=/dev/null; [ -f $sd/stdin.txt ] && inp=$sd/stdin.txt
+    (cd $1 && timeout 180 go run ./cmd/calc $sd/demo.calc < $inp 2>&1 | diff -q - $exp >/dev/null 2>&1); echo $?
   elif [ -f $sd/run_demo.sh ]; then
     (timeout 180 sh $sd/run_demo.sh $1 >/tmp/seedwt_demo.out 2>&1); echo $?
   elif ls $sd/*_test.go >/dev/null 2>&1; then
